@@ -23,7 +23,9 @@ def genRegistry : Desc :=
 
 def genOk : Bool := Gen.Registry.untranslated.isEmpty
 
-def fmtF (x : Float) : String := s!"{x}[{x.toBits}]"
+def fmtF (x : Float) : String :=
+  let s := toString x
+  (if s.length > 26 then (s.take 26).toString ++ "…" else s) ++ s!"[bits {x.toBits}]"
 
 /-- first index at which `p` fails -/
 def firstBad {α} (l : List α) (p : α → Bool) : Option (Nat × α) :=
